@@ -1,0 +1,70 @@
+//! Verification hooks (only with `--cfg humphrey_verif`): public access to the crate-private
+//! frame codec and hash/encoding utilities. No logic of its own.
+
+use crate::error::WebsocketError;
+use crate::frame::{Frame, Opcode};
+use crate::restion::Restion;
+
+use humphrey::stream::Stream;
+
+use std::convert::TryFrom;
+use std::io::Read;
+
+pub use crate::util::base64::{Base64Decode, Base64Encode};
+pub use crate::util::sha1::SHA1Hash;
+
+#[derive(Debug, Clone, PartialEq, Eq)]
+pub struct FrameParts {
+    pub fin: bool,
+    pub rsv: [bool; 3],
+    pub opcode: u8,
+    pub mask: bool,
+    pub length: u64,
+    pub masking_key: [u8; 4],
+    pub payload: Vec<u8>,
+}
+
+fn parts(f: Frame) -> FrameParts {
+    FrameParts {
+        fin: f.fin,
+        rsv: f.rsv,
+        opcode: f.opcode as u8,
+        mask: f.mask,
+        length: f.length,
+        masking_key: f.masking_key,
+        payload: f.payload,
+    }
+}
+
+/// Encodes a frame with the given fields through `From<Frame> for Vec<u8>`.
+pub fn encode(p: FrameParts) -> Result<Vec<u8>, WebsocketError> {
+    let frame = Frame {
+        fin: p.fin,
+        rsv: p.rsv,
+        opcode: Opcode::try_from(p.opcode)?,
+        mask: p.mask,
+        length: p.length,
+        masking_key: p.masking_key,
+        payload: p.payload,
+    };
+    Ok(frame.into())
+}
+
+/// `Frame::new(opcode, payload)` serialised.
+pub fn encode_new(opcode: u8, payload: Vec<u8>) -> Result<Vec<u8>, WebsocketError> {
+    Ok(Frame::new(Opcode::try_from(opcode)?, payload).into())
+}
+
+/// `Frame::from_stream`.
+pub fn decode<T: Read>(stream: T) -> Result<FrameParts, WebsocketError> {
+    Frame::from_stream(stream).map(parts)
+}
+
+/// `Frame::from_stream_nonblocking`: `None` = nothing yet.
+pub fn decode_nonblocking(stream: &mut Stream) -> Option<Result<FrameParts, WebsocketError>> {
+    match Frame::from_stream_nonblocking(stream) {
+        Restion::Ok(f) => Some(Ok(parts(f))),
+        Restion::Err(e) => Some(Err(e)),
+        Restion::None => None,
+    }
+}
